@@ -33,7 +33,7 @@ M = [
  ("c04-unicode-no-escape", "src/generator/emission.rs", "                let escaped = s.replace('\\\\', \"\\\\\\\\\");\n                let s_with_newline", "                let escaped = s.clone();\n                let s_with_newline", ["C04"]),
  ("c04-typeconf-short-string", "src/mutators/typeconfusion.rs", "                bytes.push(s.len() as u8);\n                bytes.extend_from_slice(s.as_bytes());", "                bytes.push(s.len() as u8 + 1);\n                bytes.extend_from_slice(s.as_bytes());", ["C04", "C16"]),
  # C05
- ("c05-tuple1-in-p1", "src/opcodes.rs", "        OpcodeKind::Obj,\n        OpcodeKind::BinPersID,\n    ],\n    2_u8", "        OpcodeKind::Obj,\n        OpcodeKind::BinPersID,\n        OpcodeKind::Tuple1,\n    ],\n    2_u8", ["C05"]),
+ ("c05-tuple1-in-p1", "src/opcodes.rs", "        OpcodeKind::BinPersID,\n\n    ],\n    2_u8", "        OpcodeKind::BinPersID,\n        OpcodeKind::Tuple1,\n    ],\n    2_u8", ["C05"]),
  ("c05-proto-arg-plus1", "src/generator/emission.rs", "self.output.push(self.state.version as u8);", "self.output.push(if self.state.version == Version::V5 { 4 } else { self.state.version as u8 });", ["C05"]),
  ("c05-emit-int-wrong-table", "src/generator/emission.rs", "        let version = self.state.version as u8;\n        let Some(valid_kinds) = PICKLE_OPCODES.get(&version) else {\n            return Err(eyre!(\"No opcodes", "        let version = (self.state.version as u8).max(1);\n        let Some(valid_kinds) = PICKLE_OPCODES.get(&version) else {\n            return Err(eyre!(\"No opcodes", ["C05"]),
  # C06
@@ -75,7 +75,7 @@ M = [
  ("c16-typeconf-same-type", "src/mutators/typeconfusion.rs", "            .filter(|&&t| t != original)", "            .filter(|&&t| t != original || t == StackType::None)", ["C16"]),
  ("c16-stringlen-take-plus1", "src/mutators/stringlen.rs", "                Some(value.chars().take(new_len).collect())", "                Some(value.chars().rev().take(new_len).collect())", ["C16"]),
  # C17
- ("c17-binpersid-nopop", "src/generator/stack_ops.rs", "                if let Some(_pid) = self.pop() {\n                    self.push(StackObject::String(\"persistent_object\".to_string()));\n                }", "                self.push(StackObject::String(\"persistent_object\".to_string()));", ["C17", "C01"]),
+ ("c17-binpersid-nopop", "src/generator/stack_ops.rs", "                if let Some(_pid) = self.pop() {\n                    // in a real implementation, this would call persistent_load()", "                if let Some(_pid) = self.peek().cloned() {\n                    // in a real implementation, this would call persistent_load()", ["C17", "C01"]),
  ("c17-memoize-len-plus1", "src/generator/stack_ops.rs", "self.put(self.state.memo.len(), top.borrow().clone());", "self.put(self.state.memo.len() + usize::from(self.state.memo.len() > 5), top.borrow().clone());", ["C17", "C02"]),
  ("c17-frozenset-as-set", "src/generator/stack_ops.rs", "self.push(StackObject::FrozenSet(accumulated));", "self.push(StackObject::Set(accumulated));", ["C17", "C03"]),
  # C18
@@ -100,7 +100,8 @@ def build_patch(name, f, old, new):
         sh(f"git -C {R} worktree add --detach {wt} HEAD")
     sh(f"git -C {wt} checkout -q --detach $(git -C {R} rev-parse HEAD); git -C {wt} checkout -q -- .")
     q = os.path.join(wt, f)
-    open(q, "w").write(open(q).read().replace(old, new, 1))
+    content = open(q).read()
+    open(q, "w").write(content.replace(old, new, 1))
     diff = sh(f"git -C {wt} diff").stdout
     sh(f"git -C {wt} checkout -q -- .")
     open(f"{d}/patch.diff", "w").write(diff)
